@@ -106,12 +106,18 @@ package mux
 //@   inv 1 [C15] bound: -1 <= rangeindex && rangeindex < len(v.versions)
 //@   inv 1 [C15] nomatch: forall j int :: 0 <= j && j <= rangeindex ==> !hasPrefix(r.URL.Path, v.versions[j])
 //
+// a version gets exactly the slashes it lacks: "v1", "/v1", "v1/" and "/v1/" all become "/v1/"
+//@ pred normVer(v string) = ((v[0] == '/') ? "" : "/") + v + ((v[len(v) - 1] == '/') ? "" : "/")
+//
 //@ fn NewPathVersion
 //@   maypanic
 //@   ensures [C15] type: typeis(result, "*pathVersion") && unbox(result, "*pathVersion") != nil
 //@   ensures [C15] valid: pvAll(unbox(result, "*pathVersion"))
 //@   ensures [C15] name: unbox(result, "*pathVersion").paramName == param
 //@   ensures [C15] count: len(unbox(result, "*pathVersion").versions) == len(version)
+//@   ensures [C15] normalised: forall j int :: 0 <= j && j < len(version) ==> unbox(result, "*pathVersion").versions[j] == normVer(old(version[j]))
+//@   inv 1 [C15] normalised: (forall j int :: 0 <= j && j <= rangeindex ==> version[j] == normVer(old(version[j]))) &&
+//@        (forall j int :: rangeindex < j && j < len(version) ==> version[j] == old(version[j]))
 //@   inv 1 [C15] bound: -1 <= rangeindex && rangeindex < len(version)
 //@   inv 1 [C15] done: forall j int :: 0 <= j && j <= rangeindex ==> pvValid(version[j])
 //
@@ -495,3 +501,27 @@ package mux
 //@   requires r != nil
 //@   nopanic
 //@   ensures [C19] value: result == r.router
+
+// ---------------------------------------------------------------- match.go: Hosts (C14)
+
+//@ pred validPort(p string) = p == "" || (p[0] == ':' && (forall i int :: 1 <= i && i < len(p) ==> isDigit(p[i])))
+//@ pred lastColon(h string) = pure0("strings.LastIndexByte", h, 58)
+//@ pred stripPort(h string) = (lastColon(h) != -1 && validPort(h[lastColon(h):])) ? h[:lastColon(h)] : h
+//@ pred stripBrackets(h string) = (hasPrefix(h, "[") && hasSuffix(h, "]")) ? h[1:len(h) - 1] : h
+//@ pred normHost(h string) = pure0("strings.ToLower", stripBrackets(stripPort(h)))
+//
+//@ fn Hosts.Match
+//@   requires hs != nil && r != nil && ctx != nil && hs.tree != nil && treeOK(hs.tree) && allSafe() && lockFree(hs.tree)
+//@   atcall tree.Tree.Handler [C14] normalised: arg0 == hs.tree && arg1 == ctx && arg2 == "GET" && ctx.Path == normHost(r.Host)
+//@   ensures [C14] lookup: result == callresult("tree.Tree.Handler", 1, 2)
+//
+//@ fn Hosts.Add
+//@   requires hs != nil && hs.tree != nil && treeOK(hs.tree) && allSafe() && sepOK() && lockFree(hs.tree)
+//@   maypanic
+//@   atcall tree.Tree.Add [C14] lower: arg0 == hs.tree && arg1 == pure0("strings.ToLower", domain[rangeindex + 1]) && one(arg4, "GET")
+//@   inv 1 bound: -1 <= rangeindex && rangeindex < len(domain)
+//
+//@ fn Hosts.Delete
+//@   requires hs != nil && hs.tree != nil && treeOK(hs.tree) && allSafe() && sepOK() && lockFree(hs.tree)
+//@   callsonly [C14] strings.ToLower, tree.Tree.Remove
+//@   atcall tree.Tree.Remove [C14] lower: arg0 == hs.tree && arg1 == pure0("strings.ToLower", domain) && len(arg2) == 0
